@@ -110,11 +110,41 @@ func genLit(t *rapid.T, g *genState) *Expr {
 }
 
 func genExpr(t *rapid.T, g *genState, depth int, macros []string) *Expr {
-	max := 9
+	max := 10
 	if depth <= 0 {
 		max = 3
 	}
 	switch k := ri(t, 0, max, "k"); {
+	case k == 10:
+		// loops whose bodies can match the empty string, one after another, then something that
+		// cannot: ('a'?)+ ('b'?)* 'c', ([0-9a-f]* '_'?)+ ([uU]?)* - the automaton has ε-cycles, and
+		// the second is entered while the first is still open
+		small := func() *Expr {
+			if rapid.Bool().Draw(t, "elit") {
+				return &Expr{Kind: "lit", Lit: string(poolRune(t, nil))}
+			}
+			return genClass(t, g)
+		}
+		nullableBody := func() *Expr {
+			switch ri(t, 0, 3, "nb") {
+			case 0:
+				return &Expr{Kind: "seq", Kids: []*Expr{{Kind: "star", Kids: []*Expr{small()}}, {Kind: "opt", Kids: []*Expr{small()}}}}
+			case 1:
+				return &Expr{Kind: "seq", Kids: []*Expr{{Kind: "opt", Kids: []*Expr{small()}}, {Kind: "opt", Kids: []*Expr{small()}}}}
+			default:
+				return &Expr{Kind: "opt", Kids: []*Expr{small()}}
+			}
+		}
+		e := &Expr{Kind: "seq"}
+		if rapid.Bool().Draw(t, "ehead") {
+			e.Kids = append(e.Kids, small())
+		}
+		for i, n := 0, ri(t, 1, 3, "nloops"); i < n; i++ {
+			kind := []string{"star", "plus"}[ri(t, 0, 1, "lk")]
+			e.Kids = append(e.Kids, &Expr{Kind: kind, Kids: []*Expr{{Kind: "group", Kids: []*Expr{nullableBody()}}}})
+		}
+		e.Kids = append(e.Kids, small())
+		return e
 	case k == 0 || k == 1:
 		return genLit(t, g)
 	case k == 2:
